@@ -218,6 +218,13 @@ EXT5 = {
 }
 for pid, add in EXT5.items():
     CHECKS[pid]["text"] += add
+# Extensions made in the seventh round (see DESIGN.md §6).
+EXT6 = {
+ "C03": " A number in the pool's state that math/big cannot read (digits overwritten in place while shared) is a violation of the unit that met it.",
+ "C11": " Also: a walk over a small alphabet (one reporter, one peer, 59 s / 61 s) to depth 7/9 on both drivers, reaching histories in which a tracked timestamp must be refreshed by a repeated report.",
+}
+for pid, add in EXT6.items():
+    CHECKS[pid]["text"] += add
 # technique strings: what was added to each check's deciding machinery since the first version
 TECH_ADD = {
  "C02": " + exhaustive enumeration of --contract.price spellings against the real binary (clock-bracket oracle)",
